@@ -731,8 +731,16 @@ class Gen(object):
         us = r.choice([0, 0, r.randint(0, 999999), r.randint(0, 999) * 1000, r.randint(0, 9) * 100000])
         return ('time', r.randint(0, 23), r.randint(0, 59), r.randint(0, 59), us)
 
+    zoneless = 0.0   # probability of dropping the zone name (reader-side workloads only)
+
     def dt(self):
-        """Zone-carrying date-time built from a real instant (pytz is the calendar)."""
+        """Date-time built from a real instant (pytz is the calendar); zone-carrying unless zoneless."""
+        n = self._dt()
+        if self.zoneless and self.r.random() < self.zoneless:
+            return ('dt', n[1], n[2], None)
+        return n
+
+    def _dt(self):
         import datetime
         import pytz
         from vf import tzref
@@ -749,7 +757,7 @@ class Gen(object):
         off = loc.utcoffset()
         if (off.days * 86400 + off.seconds) % 60:
             # local-mean-time era: the formats' hh:mm offset cannot express it (DESIGN 2.1)
-            return self.dt()
+            return self._dt()
         return ('dt', (loc.year, loc.month, loc.day, loc.hour, loc.minute, loc.second, loc.microsecond),
                 off.days * 86400 + off.seconds, z)
 
